@@ -256,7 +256,7 @@ def run(tier):
         for inv in ("NoStaleUse", "Linearizable"):
             cfg = os.path.join(d, "mc_%d_%d_%s.cfg" % (nt, mo, inv))
             write_cfg(cfg, variant, "Spec", nt, mo, kinds, ["TypeOK", inv])
-            r = run_tlc("MCListConc", cfg, workers=6, timeout=2400, heap="10g", coverage=False)
+            r = run_tlc("MCListConc", cfg, workers=6, timeout=7200, heap="10g", coverage=False)
             ev.add_tlc(r)
             if r.invariant_violated:
                 design_violations.append(r.invariant_violated)
